@@ -392,12 +392,13 @@ class Scan(Generic[Carry, Y], GenerativeFunction[tuple[Carry, Y]]):
         # We don't actually know if the index which was updated was the last one.
         # Therefore, we need to provide a where selection
         # between the carry from index, and the next slice --
+        # If `idx` is the last index, the final carry is the edited slice's carry. Otherwise the
+        # carry leaving slice `idx + 1` is unchanged (asserted above), and so is the final carry.
         carry_out = Diff.tree_primal(carry_retdiff)
-        carry_out_ = Diff.tree_primal(retdiff[0])
         carried_out = jtu.tree_map(
-            lambda v, v_: jnp.where(idx < max_length, v_, v),
+            lambda v, v_: jnp.where(idx + 1 < max_length, v_, v),
             carry_out,
-            carry_out_,
+            old_carried_out,
         )
 
         return (
@@ -411,7 +412,7 @@ class Scan(Generic[Carry, Y], GenerativeFunction[tuple[Carry, Y]]):
             ),
             w + (next_w * (idx + 1 < max_length)),
             # We always set the carried out value to be an unknown change, conservatively.
-            (Diff.unknown_change(old_carried_out), new_scanned_retdiff),
+            (Diff.unknown_change(carried_out), new_scanned_retdiff),
             IndexRequest(idx, bwd_request),
         )
 
